@@ -6,14 +6,16 @@
 (*   A { inner : D }   B { items : Optional[List[D]], count : int }   D    *)
 (*   (+ list[D] as a structure target, + one non-conforming argument)      *)
 (* Invariants: HistoryIndependent (a call's result never depends on the    *)
-(* calls before it), LawsInEveryState.  RegisterNested = FALSE is the      *)
-(* defective design "hooks for the top class only": TLC must refute        *)
-(* HistoryIndependent for it (the harness insists on that).                *)
+(* calls before it), LawsInEveryState.  Design = "top_only" (hooks for the *)
+(* top class only) and Design = "by_name" (structure function cached under *)
+(* the class NAME, Extra "twin" adds a distinct class sharing D's name) are*)
+(* defective designs: TLC must refute HistoryIndependent for both (the     *)
+(* harness insists on that).                                               *)
 (* Each maximal history is printed (HIST) with the results the design       *)
 (* predicts; the harness runs it against the real module-global converter. *)
 (***************************************************************************)
 EXTENDS Codec, Json
-CONSTANTS DStyle, AStyle, MaxLen, RegisterNested, Extra   \* Extra: subset of {"list", "bad", "second"}
+CONSTANTS DStyle, AStyle, MaxLen, Design, Extra   \* Design: "ok" | "top_only" | "by_name"; Extra: subset of {"list", "bad", "second", "twin"}
 VARIABLES results
 mvars == <<hooks, hist, last, results>>
 
@@ -25,7 +27,14 @@ ACls == [meta |-> StyleMeta[AStyle],
 BCls == [meta |-> StyleMeta[AStyle],
          fields |-> <<Fld(PyName("A", AStyle, 2), WireName("A", AStyle, 2), ListT(ClsT("D")), FALSE),
                       Fld(PyName("A", AStyle, 3), WireName("A", AStyle, 3), LeafT("int"), TRUE)>>]
-MCcl == [n \in {"A", "B", "D"} |-> IF n = "A" THEN ACls ELSE IF n = "B" THEN BCls ELSE DCls]
+\* "twin": Dx is a DIFFERENT class that shares D's python name (other keys, other field set)
+TwinStyle == IF DStyle = "kw" THEN "camel" ELSE "kw"
+DxCls == [meta |-> StyleMeta[TwinStyle], pyname |-> "D",
+          fields |-> <<Fld(PyName("D", TwinStyle, 1), WireName("D", TwinStyle, 1), LeafT("int"), TRUE),
+                       Fld(PyName("D", TwinStyle, 3), WireName("D", TwinStyle, 3), LeafT("date"), FALSE)>>]
+MCcl == [n \in {"A", "B", "D"} \cup (IF "twin" \in Extra THEN {"Dx"} ELSE {}) |->
+           IF n = "A" THEN ACls ELSE IF n = "B" THEN BCls ELSE IF n = "D" THEN DCls ELSE DxCls]
+RegisterNested == Design # "top_only"
 
 Types == <<ClsT("A"), ClsT("B"), ClsT("D")>>
 S(T, m) == [op |-> "S", ty |-> T, arg |-> Rep(MCcl, T, m)]
@@ -36,6 +45,7 @@ Calls0 == <<S(Types[1], 1), U(Types[1], 1), S(Types[2], 1), U(Types[2], 1), S(Ty
           \o (IF "list" \in Extra THEN <<S(ListT(ClsT("D")), 1)>> ELSE <<>>)
           \o (IF "bad" \in Extra THEN <<[op |-> "S", ty |-> ClsT("A"), arg |-> BadArg]>> ELSE <<>>)
           \o (IF "second" \in Extra THEN <<S(Types[2], 2), U(Types[1], 2)>> ELSE <<>>)
+          \o (IF "twin" \in Extra THEN <<S(ClsT("Dx"), 1), U(ClsT("Dx"), 1)>> ELSE <<>>)
 MCCalls == [i \in 1..Len(Calls0) |-> [id |-> i, op |-> Calls0[i].op, ty |-> Calls0[i].ty, arg |-> Calls0[i].arg]]
 CallSet == {MCCalls[i] : i \in 1..Len(MCCalls)}
 
@@ -45,7 +55,9 @@ Init == RegInit /\ results = <<>>
 EmitWhenComplete == Len(hist') = MaxLen => PrintT("HIST " \o ToJson([h |-> hist', exp |-> results']))
 DoStructure ==
   /\ Len(hist) < MaxLen
-  /\ \E i \in 1..Len(MCCalls) : Structure(MCcl, MCCalls[i], RegisterNested) /\ results' = Append(results, last'.res)
+  /\ \E i \in 1..Len(MCCalls) :
+        /\ (IF Design = "by_name" THEN StructureByName(MCcl, CallSet, MCCalls[i]) ELSE Structure(MCcl, MCCalls[i], RegisterNested))
+        /\ results' = Append(results, last'.res)
   /\ EmitWhenComplete
 DoUnstructure ==
   /\ Len(hist) < MaxLen
